@@ -142,13 +142,13 @@ def de_contract(A, x):
         if f:
             covered.add("request")
             d = f"http::dec_xml_body::<{x}Request>({B})"
-            ens += [f"        //# C02:de.{x}.document_members_come_from_the_xml_body", f"        ret matches Ok(i) ==> ({d} matches Ok(v) && v == i.request),"]
+            ens += [f"        //# C02,C01:de.{x}.document_members_come_from_the_xml_body", f"        ret matches Ok(i) ==> ({d} matches Ok(v) && v == i.request),"]
             oks.append(f"{d} is Ok")
             inp = {k: v for k, v in inp.items() if k not in docm}
     for mname, m in sorted(inp.items()):
         kind, wire = member_binding(A, m)
         f = field_of(A, S, mname)
-        lab = f"        //# C02:de.{x}.{mname}"
+        lab = f"        //# C02,C01:de.{x}.{mname}"
         if f is None:
             ens += [lab + ".has_a_field", f"        ret is Ok ==> false, // the model's member {mname} has no field in {S}"]; continue
         fname, fty = f; covered.add(fname)
@@ -200,9 +200,9 @@ def de_contract(A, x):
             ens += [lab, f"        ret is Ok ==> false, // member {mname} has no HTTP binding in the model: no decoding rule"]
     for fname, _ in A["fields"][S]:
         if fname not in covered:
-            ens += [f"        //# C02:de.{x}.field_{fname}_is_a_model_member", f"        ret is Ok ==> false, // field {fname} of {S} is not a member of the model's input"]
+            ens += [f"        //# C02,C01:de.{x}.field_{fname}_is_a_model_member", f"        ret is Ok ==> false, // field {fname} of {S} is not a member of the model's input"]
     if x == "PutObject": req.append("old(req).s3ext.multipart is None   // the POST-form path is deserialize_http_multipart")
-    ens += [f"        //# C02:de.{x}.accepted_when_every_member_decodes",
+    ens += [f"        //# C02,C01:de.{x}.accepted_when_every_member_decodes",
             f"        ({' && '.join(oks) if oks else 'true'}) ==> ret is Ok,"]
     txt = ""
     if req: txt += "    requires\n" + "".join(f"        {r.split('   //')[0]},{'   //' + r.split('   //')[1] if '   //' in r else ''}\n" for r in req)
